@@ -27,8 +27,17 @@ EXTRA = [
     "$['\\b\\f\\n\\r\\t\\/']", "$[\"\\ud83d\\ude00\"]", "$.😀", "$['a', \"b\", 'a\"b']", "$[1:2]", "$[:2]", "$[1:]", "$[::2]", "$[::-1]", "$[:]",
     "$[1:2:3, :, ::, 0]", "$..[1:2]", "$[?count(@[1:]) == 1]", "$[?match(@.a, 'x\\\\.y')]", "$[?search(@, \"a'b\")]",
     "$[?length(@.a) == length(@.b)]", "$[?value(@..a) == null && !match(@.b, 'c')]", "$[?@[?@[?@.a == $.b]]]", "$[?@.a, ?@.b]",
+    "$[-5:]", "$[-9:2]", "$[:-9]", "$[0][-5:]", "$..[-3:]", "$[-2:]", "$[-1:-9]", "$[9:]", "$[0][-4:-1]", "$.a[-7:]", "$[5][-3:1]", "$[?@[-3:]]",
     "$[?gl2(!@.a)]" if False else "$[?@['a b'] == 1]", "$[?$['\\n'] == @['\\t']]", "$[?@[0] == $[-1]]", "$[?true == false]", "$[?null == @]",
 ]
+
+
+def _enc_ok(d):
+    try:
+        core.enc_value(d)
+        return True
+    except core.Unrepresentable:
+        return False
 
 
 def run(chk: core.Check, tier: str, seed: int) -> None:
@@ -45,9 +54,10 @@ def run(chk: core.Check, tier: str, seed: int) -> None:
             pool_enc.append(core.enc_value(d))
         except core.Unrepresentable:
             pass
+    pool_py = [d for d in pool if _enc_ok(d)]
     recs = []
     for q in cands:
-        r = impl.rec_str(jp, q, pool_enc)
+        r = impl.rec_str(jp, q, pool_enc, docs=pool_py)
         if r is not None:
             recs.append(r)
     for r in recs:
